@@ -142,6 +142,9 @@ fn attack(ctx: &Ctx, b: &Bundle) {
             }
         }
     }
+    for (field, div, what) in sibling_difference_attack(b, &cs) {
+        found.push((field, div, what));
+    }
     found.sort();
     found.dedup();
     for (resp, div, kind) in &found {
@@ -159,7 +162,10 @@ fn run<C: Cs>(ctx: &Ctx, idx: u64, nmax: usize) {
         ctx.inconclusive("C19: key generation panicked (C18's business)");
         return;
     };
-    let bundles = all_bundles::<C>(ctx, &st, &mut r, nmax);
+    let mut bundles = all_bundles::<C>(ctx, &st, &mut r, nmax);
+    let special = special_bundles::<C>(ctx, &st, &mut r, nmax);
+    ctx.count("trusted_or_equal_attribute_proofs", special.len() as u64);
+    bundles.extend(special);
     ctx.count("proofs_attacked", bundles.len() as u64);
     par_for_each(&bundles, 12, |b| attack(ctx, b));
 }
